@@ -17,6 +17,8 @@ Adv(d) == [t |-> "adv", e |-> 0, ok |-> FALSE, k |-> "", d |-> d]
 Chk == [t |-> "check", e |-> 0, ok |-> FALSE, k |-> "", d |-> 0]
 Sel(e, k) == [t |-> "sel", e |-> e, ok |-> FALSE, k |-> k, d |-> 0]       \* the two halves of a call, so that a check can fall between them
 Done(ok) == [t |-> "done", e |-> 0, ok |-> ok, k |-> "", d |-> 0]
+Dn(e) == [t |-> "down", e |-> e, ok |-> FALSE, k |-> "", d |-> 0]      \* the server of e stops listening (Faults)
+Upt(e) == [t |-> "up", e |-> e, ok |-> FALSE, k |-> "", d |-> 0]       \* ... and listens again
 Wait(w) == Rep(Adv(30), w \div 30) \o Rep(Adv(5), (w % 30) \div 5)      \* w seconds, in the steps the model knows
 Oks(e, k) == Rep(Call(e, TRUE, "rr"), k)
 Fails(e, m) == Rep(Call(e, FALSE, "rr"), m)
@@ -57,8 +59,26 @@ F7 == { Fails(1, 2) \o <<Chk>> \o Wait(30) \o <<Chk, Call(1, TRUE, "rr")>> \o Ok
         : m \in {4, 5, 6}, w \in {5, 30} }
    \cup  \* sparse traffic from the start: every failure on endpoint 1 is followed by j quiet status checks 5 s apart
       { Oks(2, 1) \o RepSeq(Fails(1, 1) \o RepSeq(Wait(5) \o <<Chk>>, j), 6) \o <<Call(2, TRUE, "mod")>> : j \in {1, 2, 3} }
+\* F8 (N = 1, 2; Faults): endpoint 1 is used k times (0: never connected; 2: its connection is lost), stops listening, m calls
+\*             on it are refused (the request cannot be sent); a s, check; a call; 30 s, check: the reconnect fails, no probe is
+\*             admitted; it listens again; w s, check (30 s after the failed attempt?); a call (the probe) ends o1; check; a call; check
+F8 == { Oks(1, k) \o <<Dn(1)>> \o Fails(1, m) \o Wait(a) \o <<Chk, Call(2, TRUE, "mod")>> \o Wait(30) \o <<Chk, Upt(1)>> \o Wait(w)
+        \o <<Chk, Call(1, o1, "rr"), Chk, Call(1, TRUE, "ch"), Chk>>
+        : k \in {0, 2}, m \in {1, 2, 4, 5, 6}, a \in {0, 5}, w \in {0, 30}, o1 \in BOOLEAN }
+\* F9 (N = 2; Faults): a run of failures on endpoint 1 made of s silent calls and 5 - s refused ones; 5 s, check; 30 s; check with
+\*             endpoint 1 listening again (x) or not; it stops again: the admitted probe is refused; endpoint 2 stops too and leaves
+\*             by the ratio rule; everything is blocked and nothing listens: calls are still attempted (and refused); both come back, are probed
+F9 == { Oks(2, 1) \o Fails(1, s) \o <<Dn(1)>> \o Fails(1, 5 - s) \o Wait(5) \o <<Chk>> \o Wait(30)
+        \o (IF x THEN <<Upt(1), Chk, Dn(1)>> ELSE <<Chk>>) \o <<Call(1, TRUE, "rr"), Chk, Dn(2)>> \o Fails(2, f) \o <<Chk>>
+        \o <<Call(1, TRUE, "rr"), Call(2, TRUE, "mod"), Call(1, TRUE, "ch"), Upt(1), Upt(2)>> \o Wait(30)
+        \o <<Chk, Call(1, o1, "rr"), Call(2, TRUE, "rr"), Call(1, TRUE, "mod"), Chk>>
+        : s \in {0, 3, 5}, x \in BOOLEAN, f \in {1, 2}, o1 \in BOOLEAN }
+\* F10 (N = 2, KeepAlive, Faults): endpoint 1 is healthy, stops listening and gets NO call any more: only the pings of j status checks
+\*             5 s apart fail on it (each a sent and failed request); it comes back, 30 s, check, calls
+F10 == { Oks(1, 1) \o Oks(2, 1) \o <<Dn(1)>> \o RepSeq(Wait(5) \o <<Chk, Call(2, TRUE, "rr")>>, j) \o <<Upt(1)>> \o Wait(30)
+         \o <<Chk, Call(1, TRUE, "rr"), Call(1, TRUE, "rr"), Chk>> : j \in {1, 2, 5, 6} }
 \* families over the same constants are generated in one TLC run: "A+B"
-Plans == CASE Family = "F6" -> F6 [] Family = "F7" -> F7 [] Family = "F1+F2+F3" -> F1 \cup F2 \cup F3 [] Family = "F3+F4" -> F3 \cup F4 [] Family = "F1" -> F1 [] Family = "F2" -> F2 [] Family = "F3" -> F3 [] Family = "F4" -> F4 [] Family = "F5" -> F5
+Plans == CASE Family = "F6" -> F6 [] Family = "F7" -> F7 [] Family = "F7+F10" -> F7 \cup F10 [] Family = "F8" -> F8 [] Family = "F8+F9" -> F8 \cup F9 [] Family = "F1+F2+F3" -> F1 \cup F2 \cup F3 [] Family = "F3+F4" -> F3 \cup F4 [] Family = "F1" -> F1 [] Family = "F2" -> F2 [] Family = "F3" -> F3 [] Family = "F4" -> F4 [] Family = "F5" -> F5
 
 AllTrue == [e \in Eps |-> TRUE]
 Tok == plan[pos]
@@ -68,8 +88,12 @@ PlanNext ==
   /\ UNCHANGED plan
   /\ \/ /\ Tok.t = "call" /\ sub = 0
         /\ LET e == IF Tok.e \in Cands THEN Tok.e ELSE Least(Cands)
-           IN Select(1, e, Tok.k) /\ hist' = Append(hist, StepRec("Select", 1, e, Tok.k, FALSE, 0, SetToSeq(Cands)))
-        /\ sub' = 1 /\ pos' = pos
+           IN IF up[e]
+              THEN Select(1, e, Tok.k) /\ hist' = Append(hist, StepRec("Select", 1, e, Tok.k, FALSE, 0, SetToSeq(Cands)))
+                   /\ sub' = 1 /\ pos' = pos
+              ELSE \* the endpoint does not listen: the call is refused, whatever outcome the plan had in mind
+                   Refused(1, e, Tok.k) /\ hist' = Append(hist, StepRec("Refused", 1, e, Tok.k, FALSE, 0, SetToSeq(Cands)))
+                   /\ sub' = 0 /\ pos' = pos + 1
      \/ /\ Tok.t = "call" /\ sub = 1
         /\ CallDone(1, Tok.ok) /\ hist' = Append(hist, StepRec("CallDone", 1, infl[1].ep, "", Tok.ok, 0, <<>>))
         /\ sub' = 0 /\ pos' = pos + 1
@@ -80,11 +104,14 @@ PlanNext ==
      \/ /\ Tok.t = "done"
         /\ CallDone(1, Tok.ok) /\ hist' = Append(hist, StepRec("CallDone", 1, infl[1].ep, "", Tok.ok, 0, <<>>))
         /\ sub' = 0 /\ pos' = pos + 1
+     \/ /\ Tok.t \in {"down", "up"}
+        /\ SetUp(Tok.e, Tok.t = "up") /\ hist' = Append(hist, StepRec(IF Tok.t = "up" THEN "Up" ELSE "Down", 0, Tok.e, "", FALSE, 0, <<>>))
+        /\ sub' = 0 /\ pos' = pos + 1
      \/ /\ Tok.t = "adv"
         /\ Advance(Tok.d) /\ hist' = Append(hist, StepRec("Advance", 0, 0, "", FALSE, Tok.d, <<>>))
         /\ sub' = 0 /\ pos' = pos + 1
      \/ /\ Tok.t = "check"
-        /\ CheckAll(AllTrue) /\ hist' = Append(hist, StepRec("Check", 0, 0, "", FALSE, 0, <<>>))
+        /\ CheckAll(up) /\ hist' = Append(hist, StepRec("Check", 0, 0, "", FALSE, 0, <<>>))
         /\ sub' = 0 /\ pos' = pos + 1
 PlanInit == Init /\ hist = <<>> /\ plan \in Plans /\ pos = 1 /\ sub = 0
 PlanSpec == PlanInit /\ [][PlanNext]_<<vars, hist, plan, pos, sub>>
